@@ -54,6 +54,10 @@ PerStore   == \A id \in DOMAIN reg : \A q \in MQueries :
                 /\ \A o \in Outs(s, Q) :
                      /\ Len(o.hits) <= s.limit
                      /\ (Len(s.records) <= CapFactor * s.limit => o \in IdealOutcomes(s, Q))
+                     \* C05 in context: every hit shares a gram with the query
+                     /\ \A k \in DOMAIN o.hits :
+                          LET rec == CHOOSE rr \in SeqRange(s.records) : rr.id = o.hits[k].id
+                          IN q # <<>> => GramSet(rec.tok) \cap GramSet(Q) # {}
                      \* typing a title's first word, or the whole title, finds it when the store is within its limit
                      /\ (Len(s.records) <= s.limit /\ q # <<>> =>
                            \A i \in DOMAIN s.records :
